@@ -223,7 +223,8 @@ let () =
           let report kind s =
             let p = parse_steps (path_of s) in
             let sg = match kind, classify hs p with
-              | "missing", _ when (not json) && has_wild (str_of (unhex pfx)) && String.length (str_of (unhex pfx)) > String.length (path_of s) -> "c03_get_wildcard_prefix_short_path"
+              | "missing", _ when (not json) && has_wild (str_of (unhex pfx)) && String.length (str_of (unhex pfx)) > String.length (path_of s)
+                                  && List.exists (fun (sp, _) -> str_of sp = path_of s) (get_leaves (view_values hs.raw) (unhex q)) -> "c03_get_wildcard_prefix_short_path"
               | "missing", "recreate" -> "c03_recreate_under_deleted_ancestor"
               | ("missing" | "value"), "overlap" -> "c03_delete_update_overlap"
               | "missing", _ -> "c03_leaf_missing"
